@@ -771,7 +771,7 @@ def oracle_consistency(c, o, name, alt):
     if not close(kept["r"][1], want):
         _v = emit({"why": f"{name}: p={kept['r'][1]} but (#{{dist as extreme as {float(tst)}}}+c)/(reps+c) = {want} [alt={alt}, plus1={c['plus1']}, dist={kept['r'][3]}]", "cls": f"{name}:p-not-from-dist"})
         if _v: return _v
-    if not close(other["r"][1], kept["r"][1]) or other["r"][2] != kept["r"][2]:
+    if not close(other["r"][1], kept["r"][1]) or not same_result(other["r"][2], kept["r"][2]):
         _v = emit({"why": f"{name}: keep_dist changes the result under the same draws: {other['r'][:3]} vs {kept['r'][:3]}", "cls": f"{name}:keepdist-differs"})
         if _v: return _v
     if a["log"] != b["log"]:
@@ -963,7 +963,7 @@ def oracle_k(c, o):
     if len(d) != c["reps"] or not close(kept["r"][1], want):
         _v = emit({"why": f"k_sample: p={kept['r'][1]} but (#{{dist>=obs}}+c)/(reps+c)={want}", "cls": "k_sample:p-not-from-dist"})
         if _v: return _v
-    if not close(other["r"][1], kept["r"][1]) or other["r"][2] != kept["r"][2]:
+    if not close(other["r"][1], kept["r"][1]) or not same_result(other["r"][2], kept["r"][2]):
         _v = emit({"why": f"k_sample: keep_dist changes the result: {other['r'][:3]} vs {kept['r'][:3]}", "cls": "k_sample:keepdist-differs"})
         if _v: return _v
     g0 = sorted(c["g"])
@@ -1023,6 +1023,16 @@ def oracle_pot(c, o):
     return None
 
 
+def same_result(a, b):
+    """equality of two recorded results in which NaN equals NaN (a statistic that is undefined for the data, e.g. a
+    correlation of two points, is reproducibly undefined)"""
+    if isinstance(a, (list, tuple)) and isinstance(b, (list, tuple)):
+        return len(a) == len(b) and all(same_result(x, y) for x, y in zip(a, b))
+    if isinstance(a, float) and isinstance(b, float) and math.isnan(a) and math.isnan(b):
+        return True
+    return a == b
+
+
 def oracle_real(c, o):
     name = c["fn"]
     for tag in ("rec_rs", "rec_int"):
@@ -1057,13 +1067,13 @@ def oracle_real(c, o):
         bad = [(k, v[:3]) for k, v in rs.items() if v[0] != "ok"]
         _v = emit({"why": f"{name} raised on real seeds: {bad}", "cls": f"{name}:raises"})
         if _v: return _v
-    if rs["int1"] != rs["int2"]:
+    if not same_result(rs["int1"], rs["int2"]):
         _v = emit({"why": f"{name}: two calls with seed={c['seed']} under different numpy global states differ", "cls": f"{name}:irreproducible"})
         if _v: return _v
-    if rs["int1"] != rs["sha"]:
+    if not same_result(rs["int1"], rs["sha"]):
         _v = emit({"why": f"{name}: int seed and SHA256(seed) give different results", "cls": f"{name}:int-vs-sha256"})
         if _v: return _v
-    if rs["rs1"] != rs["rs2"]:
+    if not same_result(rs["rs1"], rs["rs2"]):
         _v = emit({"why": f"{name}: two RandomState generators in the same state give different results", "cls": f"{name}:randomstate-replay"})
         if _v: return _v
     for k, v in o.items():
@@ -1079,7 +1089,7 @@ def oracle_real(c, o):
         if len(d) != c["reps"] or not close(p, want):
             _v = emit({"why": f"{name}[{tag}]: p={p} but the tail-count formula on the returned dist gives {want} (alt={alt}, plus1={c['plus1']}, obs={tst}, dist={d})", "cls": f"{name}:p-not-from-dist"})
             if _v: return _v
-    if "nokeep" in rs and (not close(rs["nokeep"][1], rs["int1"][1]) or rs["nokeep"][2] != rs["int1"][2]):
+    if "nokeep" in rs and (not close(rs["nokeep"][1], rs["int1"][1]) or not same_result(rs["nokeep"][2], rs["int1"][2])):
         _v = emit({"why": f"{name}: keep_dist=False gives {rs['nokeep'][:3]}, keep_dist=True {rs['int1'][:3]} under the same seed", "cls": f"{name}:keepdist-differs"})
         if _v: return _v
     return None
